@@ -1,13 +1,13 @@
-\* C25 exhaustive: 2 goroutines x 2 calls across acquire / release / queries (LSQ, tx-monitor)
+\* C25 reply form, exhaustive: 2 goroutines x 2 calls, plain and opaque replies across acquire, both kinds of client, with termination
 CONSTANTS
   G = 2
   N = 2
-  Ops = {"acq1", "rel", "qa", "qb"}
+  Ops = {"acq1", "qa", "qx"}
   Mutex = TRUE
   AutoAcquire = TRUE
-  RelRule = TRUE
+  RelRule = FALSE
   Hist = FALSE
-  OnOpaque = {"raw"}
+  OnOpaque = {"raw", "fail"}
   DupOpaque = FALSE
 SPECIFICATION Spec
 INVARIANTS TypeOK OwnAnswer MutexExcl QueryInSession OutShape RelLegal ErrOnlyWhenDead ErrSuffix OpaqueOutcome EmitRow
